@@ -458,4 +458,476 @@ theorem evalAst_inv (hR : StoreRel R) {fuel st s r st'}
   simp only at h i
   split at h <;> cases h <;> exact i
 end Interp
+namespace Loader
+
+/-! ## C14: the abstract loader as a depth-first traversal with an explicit path -/
+
+/-- `loadDeps` over caches only -/
+def dfsDeps (f : List Name → Name → Outcome × List Name) (c : List Name) : List Name → Outcome × List Name
+  | [] => (.ok, c)
+  | d :: ds =>
+    match f c d with
+    | (.ok, c') => dfsDeps f c' ds
+    | (e, c') => (e, c')
+
+def finishHealthy (x : Name) : Outcome × List Name → Outcome × List Name
+  | (.ok, c') => (.ok, x :: c')
+  | (e, c') => (e, c')
+
+def finishFaulty : Outcome × List Name → Outcome × List Name
+  | (.ok, c') => (.fault, c')
+  | (e, c') => (e, c')
+
+/-- `load` with the in-progress list as a parameter that is passed down (and so restored by
+construction); `load_eq_dfs` shows that this is what `load` computes -/
+def dfs : Nat → Graph → List Name → List Name → Name → Outcome × List Name
+  | 0, _, c, _, _ => (.fuel, c)
+  | fuel + 1, g, c, path, x =>
+    if path.contains x then (.cyclic, c) else
+    if c.contains x then (.ok, c) else
+    match g.node x with
+    | .missing => (.notFound, c)
+    | .unreadable => (.io, c)
+    | .malformed => (.syntax, c)
+    | .healthy deps =>
+      finishHealthy x (dfsDeps (fun c d => dfs fuel g c (x :: path) d) c deps)
+    | .faulty deps =>
+      finishFaulty (dfsDeps (fun c d => dfs fuel g c (x :: path) d) c deps)
+
+theorem loadDeps_eq_dfsDeps (ld : LState → Name → Outcome × LState) (f : List Name → Name → Outcome × List Name)
+    (ip : List Name) (deps : List Name)
+    (h : ∀ c d, d ∈ deps → ld ⟨c, ip⟩ d = ((f c d).1, ⟨(f c d).2, ip⟩)) (c : List Name) :
+    loadDeps ld ⟨c, ip⟩ deps = ((dfsDeps f c deps).1, ⟨(dfsDeps f c deps).2, ip⟩) := by
+  induction deps generalizing c with
+  | nil => rfl
+  | cons d ds ih =>
+    rw [loadDeps, dfsDeps, h c d (by simp)]
+    cases hr : (f c d).1 <;> simp only [] <;> rw [show f c d = ((f c d).1, (f c d).2) from rfl, hr]
+    · exact ih (fun c d hd => h c d (by simp [hd])) _
+
+theorem load_eq_dfs (g : Graph) : ∀ (fuel : Nat) (c ip : List Name) (x : Name),
+    load fuel g ⟨c, ip⟩ x = ((dfs fuel g c ip x).1, ⟨(dfs fuel g c ip x).2, ip⟩) := by
+  intro fuel
+  induction fuel with
+  | zero => intros; rfl
+  | succ fuel ih =>
+    intro c ip x
+    rw [load, dfs]
+    by_cases hx : x ∈ ip
+    · rw [if_pos (by simpa using hx), if_pos (by simpa using hx)]
+    · rw [if_neg (by simpa using hx), if_neg (by simpa using hx)]
+      by_cases hc : x ∈ c
+      · simp [hc]
+      · have hd := fun deps => loadDeps_eq_dfsDeps (load fuel g) (fun c d => dfs fuel g c (x :: ip) d)
+          (x :: ip) deps (fun c d _ => ih c (x :: ip) d) c
+        simp only [List.contains_iff_mem, hc, if_false]
+        cases hn : g.node x with
+        | missing => simp
+        | unreadable => simp
+        | malformed => simp
+        | healthy deps =>
+          simp only [hd deps]
+          generalize dfsDeps (fun c d => dfs fuel g c (x :: ip) d) c deps = res
+          obtain ⟨r, c'⟩ := res
+          cases r <;> simp [finishHealthy]
+        | faulty deps =>
+          simp only [hd deps]
+          generalize dfsDeps (fun c d => dfs fuel g c (x :: ip) d) c deps = res
+          obtain ⟨r, c'⟩ := res
+          cases r <;> simp [finishFaulty]
+
+
+theorem dfs_cyclic {fuel g c path x} (h : x ∈ path) : dfs (fuel + 1) g c path x = (.cyclic, c) := by
+  rw [dfs, if_pos (by simpa using h)]
+
+theorem dfs_cached {fuel g c path x} (h : x ∉ path) (hc : x ∈ c) : dfs (fuel + 1) g c path x = (.ok, c) := by
+  rw [dfs, if_neg (by simpa using h), if_pos (by simpa using hc)]
+
+theorem dfs_node {fuel g c path x} (h : x ∉ path) (hc : x ∉ c) : dfs (fuel + 1) g c path x =
+    match g.node x with
+    | .missing => (.notFound, c)
+    | .unreadable => (.io, c)
+    | .malformed => (.syntax, c)
+    | .healthy deps => finishHealthy x (dfsDeps (fun c d => dfs fuel g c (x :: path) d) c deps)
+    | .faulty deps => finishFaulty (dfsDeps (fun c d => dfs fuel g c (x :: path) d) c deps) := by
+  rw [dfs, if_neg (by simpa using h), if_neg (by simpa using hc)]
+
+theorem finishHealthy_fst_ne_fuel {x r} (h : r.1 ≠ .fuel) : (finishHealthy x r).1 ≠ .fuel := by
+  obtain ⟨o, c⟩ := r; cases o <;> simp_all [finishHealthy]
+
+theorem finishFaulty_fst_ne_fuel {r} (h : r.1 ≠ .fuel) : (finishFaulty r).1 ≠ .fuel := by
+  obtain ⟨o, c⟩ := r; cases o <;> simp_all [finishFaulty]
+
+/-! ### termination: `|g| + 1` fuel always suffices -/
+
+/-- the nodes of the graph that are not in progress: the measure that decreases along the path -/
+def free (g : Graph) (path : List Name) : Nat := ((g.map Prod.fst).filter (fun y => !path.contains y)).length
+
+theorem free_le (g : Graph) (path : List Name) : free g path ≤ g.length := by
+  unfold free
+  exact Nat.le_trans (List.length_filter_le _ _) (by simp)
+
+theorem filter_len_le {l : List Name} {p q : Name → Bool} (hqp : ∀ y, q y = true → p y = true) :
+    (l.filter q).length ≤ (l.filter p).length := by
+  induction l with
+  | nil => simp
+  | cons a l ih =>
+    simp only [List.filter_cons]
+    cases hq : q a
+    · cases hp : p a <;> simp <;> omega
+    · simp [hqp a hq, ih]
+
+theorem filter_len_lt {l : List Name} {p q : Name → Bool} (hqp : ∀ y, q y = true → p y = true)
+    {x : Name} (hx : x ∈ l) (hpx : p x = true) (hqx : q x = false) :
+    (l.filter q).length < (l.filter p).length := by
+  induction l with
+  | nil => cases hx
+  | cons a l ih =>
+    simp only [List.filter_cons]
+    by_cases hax : a = x
+    · subst hax
+      have := filter_len_le (l := l) hqp
+      simp [hpx, hqx]; omega
+    · have hx' : x ∈ l := by simpa [Ne.symm hax] using hx
+      have := ih hx'
+      cases hq : q a
+      · cases hp : p a <;> simp <;> omega
+      · simp [hqp a hq, this]
+
+theorem free_lt {g : Graph} {path : List Name} {x : Name} (hx : x ∈ g.map Prod.fst) (hp : x ∉ path) :
+    free g (x :: path) < free g path := by
+  unfold free
+  apply filter_len_lt (x := x) _ hx
+  · simpa using hp
+  · simp
+  · intro y; simp
+
+theorem mem_keys_of_node {g : Graph} {x : Name} (h : g.node x ≠ .missing) : x ∈ g.map Prod.fst := by
+  unfold Graph.node at h
+  cases hl : g.lookup x with
+  | none => simp [hl] at h
+  | some n =>
+    clear h
+    induction g with
+    | nil => simp at hl
+    | cons p g ih =>
+      obtain ⟨k, v⟩ := p
+      by_cases hk : x = k
+      · simp [hk]
+      · have : (x == k) = false := by simpa using hk
+        simp only [List.lookup_cons, this] at hl
+        simp [ih hl]
+
+
+theorem dfsDeps_ne_fuel {f : List Name → Name → Outcome × List Name} {deps : List Name}
+    (h : ∀ c d, d ∈ deps → (f c d).1 ≠ .fuel) (c : List Name) : (dfsDeps f c deps).1 ≠ .fuel := by
+  induction deps generalizing c with
+  | nil => simp [dfsDeps]
+  | cons d ds ih =>
+    rw [dfsDeps]
+    have hd := h c d (by simp)
+    generalize f c d = res at hd
+    obtain ⟨r, c'⟩ := res
+    cases r <;> simp_all
+
+theorem dfs_ne_fuel (g : Graph) : ∀ (fuel : Nat) (c path : List Name) (x : Name),
+    free g path < fuel → (dfs fuel g c path x).1 ≠ .fuel := by
+  intro fuel
+  induction fuel with
+  | zero => intro c path x h; omega
+  | succ fuel ih =>
+    intro c path x hlt
+    by_cases hx : x ∈ path
+    · simp [dfs_cyclic hx]
+    · by_cases hc : x ∈ c
+      · simp [dfs_cached hx hc]
+      · rw [dfs_node hx hc]
+        have key : ∀ deps, g.node x ≠ .missing →
+            (dfsDeps (fun c d => dfs fuel g c (x :: path) d) c deps).1 ≠ .fuel := by
+          intro deps hn
+          apply dfsDeps_ne_fuel
+          intro c d _
+          apply ih
+          have := free_lt (mem_keys_of_node hn) hx
+          omega
+        cases hn : g.node x with
+        | missing => simp
+        | unreadable => simp
+        | malformed => simp
+        | healthy deps => exact finishHealthy_fst_ne_fuel (key deps (by simp [hn]))
+        | faulty deps => exact finishFaulty_fst_ne_fuel (key deps (by simp [hn]))
+
+
+/-! ### the cache invariant -/
+
+/-- `CacheOK` over a cache and a path -/
+structure COK (g : Graph) (c path : List Name) : Prop where
+  loadable : ∀ y ∈ c, Loadable g y
+  closed : ∀ y ∈ c, ∀ d ∈ (g.node y).deps, d ∈ c
+  disjoint : ∀ y ∈ c, y ∉ path
+
+structure Post (g : Graph) (c path : List Name) (res : Outcome × List Name) : Prop where
+  cok : COK g res.2 path
+  mono : ∀ y ∈ c, y ∈ res.2
+
+theorem dfsDeps_post {g : Graph} {path : List Name} {f : List Name → Name → Outcome × List Name}
+    {deps : List Name}
+    (h : ∀ c d, d ∈ deps → COK g c path → Post g c path (f c d) ∧ ((f c d).1 = .ok → d ∈ (f c d).2))
+    (c : List Name) (hc : COK g c path) :
+    Post g c path (dfsDeps f c deps) ∧ ((dfsDeps f c deps).1 = .ok → ∀ d ∈ deps, d ∈ (dfsDeps f c deps).2) := by
+  induction deps generalizing c with
+  | nil => exact ⟨⟨hc, fun _ h => h⟩, fun _ _ h => by cases h⟩
+  | cons d ds ih =>
+    rw [dfsDeps]
+    have hd := h c d (by simp) hc
+    generalize f c d = res at hd
+    obtain ⟨r, c'⟩ := res
+    obtain ⟨⟨hcok, hmono⟩, hok⟩ := hd
+    have hrest := ih (fun c d hd => h c d (by simp [hd])) c' hcok
+    cases r
+    case ok =>
+      simp only
+      refine ⟨⟨hrest.1.cok, fun y hy => hrest.1.mono _ (hmono y hy)⟩, fun hr e he => ?_⟩
+      rcases List.mem_cons.1 he with rfl | he
+      · exact hrest.1.mono _ (hok rfl)
+      · exact hrest.2 hr e he
+    all_goals exact ⟨⟨hcok, hmono⟩, fun h => by cases h⟩
+
+theorem COK.push {g c path x} (h : COK g c path) (hx : x ∉ c) : COK g c (x :: path) :=
+  ⟨h.loadable, h.closed, fun y hy => by
+    intro hm
+    rcases List.mem_cons.1 hm with rfl | hm
+    · exact hx hy
+    · exact h.disjoint y hy hm⟩
+
+theorem dfs_post (g : Graph) : ∀ (fuel : Nat) (c path : List Name) (x : Name), COK g c path →
+    Post g c path (dfs fuel g c path x) ∧ ((dfs fuel g c path x).1 = .ok → x ∈ (dfs fuel g c path x).2) := by
+  intro fuel
+  induction fuel with
+  | zero => intro c path x h; exact ⟨⟨h, fun _ h => h⟩, fun h => by cases h⟩
+  | succ fuel ih =>
+    intro c path x hcok
+    by_cases hx : x ∈ path
+    · rw [dfs_cyclic hx]; exact ⟨⟨hcok, fun _ h => h⟩, fun h => by cases h⟩
+    · by_cases hc : x ∈ c
+      · rw [dfs_cached hx hc]; exact ⟨⟨hcok, fun _ h => h⟩, fun _ => hc⟩
+      · rw [dfs_node hx hc]
+        have key := fun deps => dfsDeps_post (g := g) (path := x :: path)
+          (f := fun c d => dfs fuel g c (x :: path) d) (deps := deps)
+          (fun c d _ h => ih c (x :: path) d h) c (hcok.push hc)
+        cases hn : g.node x with
+        | missing => exact ⟨⟨hcok, fun _ h => h⟩, fun h => by cases h⟩
+        | unreadable => exact ⟨⟨hcok, fun _ h => h⟩, fun h => by cases h⟩
+        | malformed => exact ⟨⟨hcok, fun _ h => h⟩, fun h => by cases h⟩
+        | healthy deps =>
+          have k := key deps
+          simp only []
+          generalize dfsDeps (fun c d => dfs fuel g c (x :: path) d) c deps = res at k ⊢
+          obtain ⟨r, c'⟩ := res
+          obtain ⟨⟨kc, km⟩, kd⟩ := k
+          have base : COK g c' path := ⟨kc.loadable, kc.closed, fun y hy hm => kc.disjoint y hy (by simp [hm])⟩
+          cases r
+          case ok =>
+            simp only [finishHealthy]
+            have hdeps := kd rfl
+            refine ⟨⟨⟨?_, ?_, ?_⟩, fun y hy => by simp [km y hy]⟩, fun _ => by simp⟩
+            · intro y hy
+              rcases List.mem_cons.1 hy with rfl | hy
+              · exact .mk hn (fun d hd => kc.loadable d (hdeps d hd))
+              · exact kc.loadable y hy
+            · intro y hy d hd
+              rcases List.mem_cons.1 hy with rfl | hy
+              · rw [hn] at hd; simp [hdeps d hd]
+              · simp [kc.closed y hy d hd]
+            · intro y hy
+              rcases List.mem_cons.1 hy with rfl | hy
+              · exact hx
+              · exact base.disjoint y hy
+          all_goals simp only [finishHealthy]; exact ⟨⟨base, km⟩, fun h => by cases h⟩
+        | faulty deps =>
+          have k := key deps
+          simp only []
+          generalize dfsDeps (fun c d => dfs fuel g c (x :: path) d) c deps = res at k ⊢
+          obtain ⟨r, c'⟩ := res
+          obtain ⟨⟨kc, km⟩, kd⟩ := k
+          have base : COK g c' path := ⟨kc.loadable, kc.closed, fun y hy hm => kc.disjoint y hy (by simp [hm])⟩
+          cases r <;> simp only [finishFaulty] <;> exact ⟨⟨base, km⟩, fun h => by cases h⟩
+
+
+/-! ### the graph -/
+
+theorem Reachable.trans {g : Graph} {x y z : Name} (h1 : Reachable g x y) (h2 : Reachable g y z) :
+    Reachable g x z := by
+  induction h1 with
+  | refl => exact h2
+  | step hd _ ih => exact .step hd (ih h2)
+
+theorem Reachable.single {g : Graph} {x y : Name} (h : y ∈ (g.node x).deps) : Reachable g x y :=
+  .step h (.refl _)
+
+theorem Loadable.no_back {g : Graph} {x : Name} (h : Loadable g x) :
+    ∀ d ∈ (g.node x).deps, ¬ Reachable g d x := by
+  induction h with
+  | @mk x deps hn _ ih =>
+    intro d hd hr
+    rw [hn] at hd
+    cases hr with
+    | refl => exact ih x hd x (by rw [hn]; exact hd) (.refl _)
+    | @step _ d' _ hd' hr' =>
+      exact ih d hd d' hd' (hr'.trans (.single (by rw [hn]; exact hd)))
+
+theorem Loadable.of_reachable {g : Graph} {x y : Name} (h : Loadable g x) (hr : Reachable g x y) :
+    Loadable g y := by
+  induction hr with
+  | refl => exact h
+  | step hd _ ih =>
+    apply ih
+    cases h with
+    | mk hn hall => rw [hn] at hd; exact hall _ hd
+
+theorem dfsDeps_ok_or_fuel {f : List Name → Name → Outcome × List Name} {deps : List Name}
+    (h : ∀ c d, d ∈ deps → (f c d).1 = .ok ∨ (f c d).1 = .fuel) (c : List Name) :
+    (dfsDeps f c deps).1 = .ok ∨ (dfsDeps f c deps).1 = .fuel := by
+  induction deps generalizing c with
+  | nil => simp [dfsDeps]
+  | cons d ds ih =>
+    rw [dfsDeps]
+    have hd := h c d (by simp)
+    generalize f c d = res at hd
+    obtain ⟨r, c'⟩ := res
+    rcases hd with hd | hd <;> simp only at hd <;> subst hd
+    · exact ih (fun c d hd => h c d (by simp [hd])) c'
+    · simp
+
+/-- a loadable node none of whose descendants is in progress loads (unless fuel runs out) -/
+theorem dfs_loadable {g : Graph} {x : Name} (h : Loadable g x) : ∀ (fuel : Nat) (c path : List Name),
+    (∀ y, Reachable g x y → y ∉ path) →
+    (dfs fuel g c path x).1 = .ok ∨ (dfs fuel g c path x).1 = .fuel := by
+  induction h with
+  | @mk x deps hn hall ih =>
+    intro fuel c path hp
+    cases fuel with
+    | zero => right; rfl
+    | succ fuel =>
+      have hx : x ∉ path := hp x (.refl _)
+      by_cases hc : x ∈ c
+      · rw [dfs_cached hx hc]; left; rfl
+      · rw [dfs_node hx hc, hn]
+        simp only []
+        have hback := Loadable.no_back (.mk hn hall)
+        have key := dfsDeps_ok_or_fuel (f := fun c d => dfs fuel g c (x :: path) d) (deps := deps)
+          (fun c d hd => ih d hd fuel c (x :: path) (fun y hy hm => by
+            rcases List.mem_cons.1 hm with rfl | hm
+            · exact hback d (by rw [hn]; exact hd) hy
+            · exact hp y (.step (by rw [hn]; exact hd) hy) hm)) c
+        generalize dfsDeps (fun c d => dfs fuel g c (x :: path) d) c deps = res at key
+        obtain ⟨r, c'⟩ := res
+        rcases key with k | k <;> simp only at k <;> subst k <;> simp [finishHealthy]
+
+
+/-! ### the outcome does not depend on the cache -/
+
+theorem COK.reach_mem {g : Graph} {c path : List Name} {x y : Name} (h : COK g c path) (hx : x ∈ c)
+    (hr : Reachable g x y) : y ∈ c := by
+  induction hr with
+  | refl => exact hx
+  | step hd _ ih => exact ih (h.closed _ hx _ hd)
+
+theorem dfsDeps_indep {g : Graph} {path : List Name} {f : List Name → Name → Outcome × List Name}
+    {deps : List Name}
+    (hpost : ∀ c d, d ∈ deps → COK g c path → COK g (f c d).2 path)
+    (heq : ∀ c₁ c₂ d, d ∈ deps → COK g c₁ path → COK g c₂ path → (f c₁ d).1 = (f c₂ d).1)
+    (c₁ c₂ : List Name) (h1 : COK g c₁ path) (h2 : COK g c₂ path) :
+    (dfsDeps f c₁ deps).1 = (dfsDeps f c₂ deps).1 := by
+  induction deps generalizing c₁ c₂ with
+  | nil => rfl
+  | cons d ds ih =>
+    rw [dfsDeps, dfsDeps]
+    have e := heq c₁ c₂ d (by simp) h1 h2
+    have p1 := hpost c₁ d (by simp) h1
+    have p2 := hpost c₂ d (by simp) h2
+    generalize f c₁ d = res1 at e p1
+    generalize f c₂ d = res2 at e p2
+    obtain ⟨r1, c1'⟩ := res1
+    obtain ⟨r2, c2'⟩ := res2
+    simp only at e p1 p2
+    subst e
+    cases r1
+    case ok =>
+      exact ih (fun c d hd => hpost c d (by simp [hd])) (fun a b d hd => heq a b d (by simp [hd])) c1' c2' p1 p2
+    all_goals rfl
+
+theorem finishHealthy_fst_congr {x : Name} {r1 r2 : Outcome × List Name} (h : r1.1 = r2.1) :
+    (finishHealthy x r1).1 = (finishHealthy x r2).1 := by
+  obtain ⟨a, _⟩ := r1; obtain ⟨b, _⟩ := r2; simp only at h; subst h; cases a <;> rfl
+
+theorem finishFaulty_fst_congr {r1 r2 : Outcome × List Name} (h : r1.1 = r2.1) :
+    (finishFaulty r1).1 = (finishFaulty r2).1 := by
+  obtain ⟨a, _⟩ := r1; obtain ⟨b, _⟩ := r2; simp only at h; subst h; cases a <;> rfl
+
+/-- a cached node would load anyway -/
+theorem dfs_of_cached {g : Graph} {c c' path : List Name} {x : Name} {fuel : Nat} (h : COK g c path)
+    (hx : x ∈ c) (hfuel : free g path < fuel) : (dfs fuel g c' path x).1 = .ok := by
+  have := dfs_loadable (h.loadable x hx) fuel c' path (fun y hy => h.disjoint y (h.reach_mem hx hy))
+  rcases this with h | h
+  · exact h
+  · exact absurd h (dfs_ne_fuel g fuel c' path x hfuel)
+
+theorem dfs_indep (g : Graph) : ∀ (fuel : Nat) (c₁ c₂ path : List Name) (x : Name),
+    COK g c₁ path → COK g c₂ path → free g path < fuel →
+    (dfs fuel g c₁ path x).1 = (dfs fuel g c₂ path x).1 := by
+  intro fuel
+  induction fuel with
+  | zero => intros; omega
+  | succ fuel ih =>
+    intro c₁ c₂ path x h1 h2 hfuel
+    by_cases hx : x ∈ path
+    · rw [dfs_cyclic hx, dfs_cyclic hx]
+    · by_cases hc1 : x ∈ c₁
+      · rw [dfs_cached hx hc1]
+        exact (dfs_of_cached h1 hc1 hfuel).symm
+      · by_cases hc2 : x ∈ c₂
+        · rw [dfs_cached hx hc2]
+          exact dfs_of_cached h2 hc2 hfuel
+        · rw [dfs_node hx hc1, dfs_node hx hc2]
+          have key : ∀ deps, g.node x ≠ .missing →
+              (dfsDeps (fun c d => dfs fuel g c (x :: path) d) c₁ deps).1 =
+              (dfsDeps (fun c d => dfs fuel g c (x :: path) d) c₂ deps).1 := by
+            intro deps hn
+            have hlt : free g (x :: path) < fuel := by
+              have := free_lt (mem_keys_of_node hn) hx; omega
+            exact dfsDeps_indep (g := g) (path := x :: path)
+              (fun c d _ hc => (dfs_post g fuel c (x :: path) d hc).1.cok)
+              (fun a b d _ ha hb => ih a b (x :: path) d ha hb hlt) c₁ c₂ (h1.push hc1) (h2.push hc2)
+          cases hn : g.node x with
+          | missing => rfl
+          | unreadable => rfl
+          | malformed => rfl
+          | healthy deps => exact finishHealthy_fst_congr (key deps (by simp [hn]))
+          | faulty deps => exact finishFaulty_fst_congr (key deps (by simp [hn]))
+
+
+/-! ### back to `load` -/
+
+theorem cacheOK_iff {g : Graph} {st : LState} : CacheOK g st ↔ COK g st.cache st.inProgress :=
+  ⟨fun h => ⟨h.loadable, h.closed, h.disjoint⟩, fun h => ⟨h.loadable, h.closed, h.disjoint⟩⟩
+
+theorem load_eq_dfs' (g : Graph) (fuel : Nat) (st : LState) (x : Name) :
+    load fuel g st x = ((dfs fuel g st.cache st.inProgress x).1,
+      ⟨(dfs fuel g st.cache st.inProgress x).2, st.inProgress⟩) :=
+  load_eq_dfs g fuel st.cache st.inProgress x
+
+theorem attempts_ok (g : Graph) (hist : List (Nat × Name)) (st : LState) (h : CacheOK g st) :
+    CacheOK g (attempts g st hist) ∧ (attempts g st hist).inProgress = st.inProgress := by
+  induction hist generalizing st with
+  | nil => exact ⟨h, rfl⟩
+  | cons p rest ih =>
+    obtain ⟨fuel, x⟩ := p
+    rw [attempts]
+    have hp := (dfs_post g fuel st.cache st.inProgress x (cacheOK_iff.1 h)).1.cok
+    have := ih (load fuel g st x).2 (by rw [load_eq_dfs']; exact cacheOK_iff.2 hp)
+    refine ⟨this.1, this.2.trans ?_⟩
+    rw [load_eq_dfs']
+
+end Loader
 end Ruschm
